@@ -36,6 +36,9 @@ type Stub struct {
 	// that Verify(id, Sign(id, msg), msg) holds when the harness says so.
 	Sign func(id int, msg []byte) []byte
 
+	// XVerify decides an aggregated signature.
+	XVerify func(ids []int, sig, msg []byte) bool
+
 	keys  map[int]*ecdsa.PublicKey
 	privs map[int]*ecdsa.PrivateKey
 	Calls []Call
@@ -135,4 +138,19 @@ func (s *Stub) VerifyECDSA(k *ecdsa.PublicKey, signature, msg []byte) (bool, err
 	ok := s.Verify(id, signature, msg)
 	s.Calls = append(s.Calls, Call{Key: id, Sig: signature, Msg: msg, Ok: ok})
 	return ok, nil
+}
+
+// XVerify decides an aggregated signature over msg under the listed key ids (nil: always false).
+func (s *Stub) VerifyXuperSignature(keys []*ecdsa.PublicKey, signature, msg []byte) (bool, error) {
+	ids := make([]int, len(keys))
+	for i, k := range keys {
+		ids[i] = s.KeyID(k)
+		if ids[i] < 0 {
+			return false, errors.New("vcrypto: unknown key object")
+		}
+	}
+	if s.XVerify == nil {
+		return false, nil
+	}
+	return s.XVerify(ids, signature, msg), nil
 }
